@@ -1,3 +1,11 @@
 import Genq.Props.C01
-open Genq.C01
-#print axioms C01_placeholder
+open Genq.TypeMap
+open Genq.Imports
+open Genq.Conv
+#print axioms C01_second_visit_accepted
+#print axioms C01_import_aliases_distinct
+#print axioms C01_reference_uses_declared_alias
+#print axioms C01_alias_stable
+#print axioms C01_template_view_complete
+#print axioms C01_tie_template_views
+#print axioms C01_generic_breaks_view
